@@ -10,7 +10,8 @@ if [ ! -x bin/gosx ] || [ -n "$(find engine -name '*.go' -newer bin/gosx 2>/dev/
   mkdir -p bin && (cd engine && go build -o ../bin/gosx ./cmd/gosx) || { echo "cannot build gosx"; exit 2; }
 fi
 lim=3000; [ "$tier" = thorough ] && lim=14000
-timeout -k 10 $lim ./bin/gosx check -tier "$tier" "$id"
+if [ $# -ge 2 ]; then shift 2; else shift $#; fi
+timeout -k 10 $lim ./bin/gosx check -tier "$tier" "$@" "$id"
 rc=$?
 # solver/compiler processes of an interrupted run must not outlive the check
 exit $rc
